@@ -61,7 +61,7 @@ pub struct St {
 
 /// signer lists (0 = the base key, 1 = the other key) for the accumulated key and for the accumulated signature;
 /// the key is accumulated by the library (`MultiPublicKey::from_public_keys`), the reference sums the same list itself
-const MULTI: [(&[usize], &[usize]); 6] = [
+const MULTI: [(&[usize], &[usize]); 8] = [
     (&[0], &[0]),
     (&[0, 1], &[0, 1]),
     (&[0, 1, 0], &[0, 1, 0]),
@@ -69,6 +69,9 @@ const MULTI: [(&[usize], &[usize]); 6] = [
     (&[1, 0, 0], &[0, 0, 1]),
     // a repeated signer counted once in the signature only: must be rejected
     (&[0, 1, 0], &[0, 1]),
+    // signer 2 is the negation of signer 0: a prefix of the list sums to the identity, the whole list does not
+    (&[0, 2, 1], &[0, 2, 1]),
+    (&[1, 0, 2, 1], &[1, 0, 2, 1]),
 ];
 
 impl St {
@@ -430,7 +433,12 @@ impl<C: Suite> Model for M02<C> {
         if st.sum_both != 0 {
             let (kl, sl) = MULTI[st.sum_both as usize];
             opclass += &format!("sum_both[keys={:?},sigs={:?}]", kl, sl);
-            let pick = |i: usize| if i == 0 { sk } else { sk2 };
+            let neg = SecretKey::<C>(-sk.0);
+            let pick = |i: usize| match i {
+                0 => sk,
+                1 => sk2,
+                _ => &neg,
+            };
             let keys: Vec<PublicKey<C>> = kl.iter().map(|i| pick(*i).public_key()).collect();
             pk = MultiPublicKey::<C>::from_public_keys(&keys).0;
             let mut rk = <<C::R as rf::RefSuite>::Pk as bls12_381_plus::group::Group>::identity();
@@ -438,8 +446,20 @@ impl<C: Suite> Model for M02<C> {
                 rk += <C::R as rf::RefSuite>::pk_from(&Vec::<u8>::from(k)).expect("honest key decodes in the reference");
             }
             ref_pk_override = Some(rf::enc(&rk));
-            for i in &sl[1..] {
-                sig += *pick(*i).sign(lscheme, msg0).unwrap().as_raw_value();
+            if st.s != Scheme::Aug && st.sig.is_none() && sl[0] == 0 {
+                // accumulated by the library (the first part is the honest signature of the base key)
+                let parts: Vec<Signature<C>> = sl.iter().map(|i| pick(*i).sign(lscheme, msg0).unwrap()).collect();
+                match MultiSignature::<C>::from_signatures(&parts) {
+                    Ok(m) => sig = *m.as_raw_value(),
+                    Err(e) => {
+                        o.expect(&format!("C02:multi-signature-accumulates:{}:{}", g, st.s.name()), false, "Ok", &e.to_string());
+                        return;
+                    }
+                }
+            } else {
+                for i in &sl[1..] {
+                    sig += *pick(*i).sign(lscheme, msg0).unwrap().as_raw_value();
+                }
             }
             let mut a = kl.to_vec();
             let mut b = sl.to_vec();
